@@ -584,8 +584,10 @@ fn scan_for(root: &Path, needles: &[(String, Vec<u8>)]) -> Vec<String> {
     hits
 }
 
-pub fn matrix(rep: &mut Report, depth: usize) {
+pub fn matrix(rep: &mut Report, depth: usize, umask: u32) {
     init_keyring();
+    // the process umask decides which bits a freshly created file starts with; the library must end at 0600 / 0700 under any
+    let old_umask = unsafe { libc::umask(umask as libc::mode_t) };
     let actions: Vec<(Ctor, usize)> = [Ctor::New(0), Ctor::New(1), Ctor::WithKey(0), Ctor::WithKey(1), Ctor::Unenc].iter().flat_map(|c| [(*c, 0usize), (*c, 1usize)]).collect();
     let inits = [FileInit::Missing, FileInit::Empty, FileInit::Plain, FileInit::EncCaller0, FileInit::EncKeyring0, FileInit::Garbage];
     let mut seqs: Vec<Vec<(Ctor, usize)>> = vec![vec![]];
@@ -709,8 +711,9 @@ pub fn matrix(rep: &mut Report, depth: usize) {
     let o = opens.load(Ordering::Relaxed);
     rep.transitions += o;
     rep.evaluations += o;
-    rep.add_count("matrix_sequences", work.len() as u64);
-    rep.add_count("matrix_constructor_calls", o);
+    unsafe { libc::umask(old_umask) };
+    rep.add_count(&format!("matrix_sequences_umask_{umask:03o}"), work.len() as u64);
+    rep.add_count(&format!("matrix_constructor_calls_umask_{umask:03o}"), o);
     let cells = cells.into_inner().unwrap();
     rep.add_count("matrix_distinct_cells(constructor,file state,keyring state)", cells.len() as u64);
     for c in cells {
